@@ -549,8 +549,111 @@ def times_check(prop, tier):
     return run.finish()
 
 
+# =============================================================== lock (C04)
+
+def lock_check(prop, tier):
+    run = Run(prop, tier)
+    run.rule = ("(a) MC_Lock: all interleavings of 3 threads x {injector, preventer} x {drop, panic}, safety + hand-over liveness; "
+                "(b) schedules generated by TLC (MC_LockApi; deterministic ones: at most one waiter) executed in lock-step on real "
+                "threads: an action the model blocks must not complete within 20 ms, one it lets through must complete within 10 s, "
+                "every observation compared; (c) free-running perturbed threads, event order validated by TLC (Trace_Lock); "
+                "(d) single-thread lifecycle traces with the guard's state read at every OS call (Trace_Api, Props={C04})")
+    run.assumptions = ["20 ms is enough for a non-blocked new()/prevent() to return (a slow machine can only hide a violation)",
+                       "free-running: sequence numbers taken under the harness's event lock"]
+    for cfg in (["MC_Lock_q"] if tier == "quick" else ["MC_Lock_q", "MC_Lock_t"]):
+        r = tlc.check("MC_Lock", cfg, workers=TLC_WORKERS, timeout=3000)
+        run.add_model(r, required_actions=("Acquire", "Unlock", "Restore"))
+        if r["violation"]:
+            run.design_violation(r)
+    # (b) schedules
+    rnd = vlib.rnd("lock")
+    scheds = []
+    for cfg, nth in ((("MC_LockApi_q", 2),) if tier == "quick" else (("MC_LockApi_q", 2), ("MC_LockApi_3", 3))):
+        # the 3-thread instance has ~4*10^5 replayable schedules: sample it with TLC's simulator
+        sim = {"num": 4000, "depth": 300, "seed": vlib.seed()} if nth == 3 else None
+        r = tlc.check("MC_LockApi", cfg, workers=1, timeout=3000, coverage=False, sim=sim)
+        if r["violation"]:
+            raise ToolError("schedule generator violated: %s" % r["violation"])
+        run.states += r["distinct"]
+        run.transitions += r["generated"]
+        seen = set()
+        for h in tlc.parse_replay_lines(r["prints"]):
+            k = json.dumps(h, sort_keys=True)
+            if k not in seen:
+                seen.add(k)
+                scheds.append((nth, h))
+    rnd.shuffle(scheds)
+    limit = 140 if tier == "quick" else 3000
+    # keep every schedule in which somebody blocks first, then fill up
+    blocking = [x for x in scheds if any(st.get("blocks") for st in x[1])]
+    rest = [x for x in scheds if not any(st.get("blocks") for st in x[1])]
+    chosen = (blocking + rest)[:limit] if len(blocking) < limit * 0.8 else blocking[:int(limit * 0.8)] + rest[:int(limit * 0.2)]
+    scen = [{"id": i, "mode": "lockstep", "threads": nth, "steps": h} for i, (nth, h) in enumerate(chosen, 1)]
+    vlib.build_harness()
+    groups, order, _ = vlib.run_harness("locks", scen, "locks_C04", timeout=3000)
+    run.extra["schedules"] = {"generated": len(scheds), "executed": len(scen), "with_blocking": len(blocking)}
+    for sc in scen:
+        evs = groups.get(sc["id"], [])
+        key = " ".join("%s%s%s" % (st["act"][0:3], st["t"], "!" if st.get("blocks") else "") for st in sc["steps"])
+        run.note_case(key)
+        badstep = next((e for e in evs if e["ev"] == "Step" and not e["ok"]), None)
+        crashed = next((e for e in evs if e["ev"] == "ChildExit" and (e["signal"] != 0 or e["code"] != 0)), None)
+        nsteps = sum(1 for e in evs if e["ev"] == "Step")
+        if badstep or crashed or nsteps < len(sc["steps"]):
+            run.violation("C04 schedule=%s at=%s obs=%s" % (key, badstep["i"] if badstep else nsteps, badstep["obs"] if badstep else "crash/hang"),
+                          {"schedule": sc, "bad_step": badstep, "child": crashed, "steps_done": nsteps})
+        else:
+            run.traces += 1
+    run.sample({"schedule": scen[0]["steps"]})
+    # (c) free-running
+    frees = []
+    for i, (nth, rounds) in enumerate([(2, 60), (3, 50), (4, 40), (8, 30)] if tier == "quick" else [(2, 400), (3, 300), (4, 300), (6, 200), (8, 200), (8, 400)], 1):
+        frees.append({"id": i, "mode": "free", "threads": nth, "rounds": rounds, "perturb_us": 200})
+    fgroups, forder, _ = vlib.run_harness("locks", frees, "locksfree_C04", timeout=3000)
+
+    def norm(e):
+        if e["ev"] in ("Call", "FreeEnd"):
+            r = e["res"]
+            e = dict(e)
+            e["res"] = ["k", int(r[1:])] if r.startswith("k") and r[1:].isdigit() else (["orig", 0] if r == "orig" else [r, -1])
+        return e
+    tv = tlc.validate_traces("Trace_Lock", "Trace_Lock", [(f["id"], [norm(e) for e in fgroups.get(f["id"], [])]) for f in frees], WORK,
+                             "trace_lock", timeout=3000)
+    run.traces += len(tv["accepted"])
+    run.states += tv["states"]
+    run.transitions += tv["transitions"]
+    run.extra["free_running"] = {"runs": len(frees), "events": sum(len(fgroups.get(f["id"], [])) for f in frees), "accepted": len(tv["accepted"])}
+    for sid in tv["ids"]:
+        if sid not in tv["accepted"]:
+            reached, total = tv["progress"][sid]
+            evs = fgroups.get(sid, [])
+            fe = evs[reached] if reached < len(evs) else None
+            run.violation("C04 free-running threads=%s first_unmatched=%s" % (frees[sid - 1]["threads"], fe["ev"] if fe else None),
+                          {"run": frees[sid - 1], "trace_rejected_at": reached, "first_unmatched_event": fe,
+                           "events": evs[max(0, reached - 10):reached + 2]})
+    # (d) the guard is held at every OS-level step of install and drop
+    hists, gr = gen_behaviours("MC_LifecycleApi_q", timeout=3000)
+    hists = hists[::3]
+    scen2 = [hist_to_scenario(h, i, "rust", 2, diff=False) for i, h in enumerate(hists, 1)]
+    g2, o2, _ = vlib.run_harness("lifecycle", scen2, "lifecycle_C04")
+    cfgp = tlc.make_cfg("Trace_Api", {"Props": '{"C04", "ALL"}'}, "Trace_Api_C04")
+    tv3 = tlc.validate_traces("Trace_Api", cfgp, [(i, g2.get(i, [])) for i in range(1, len(hists) + 1)], WORK, "trace_C04", timeout=3000)
+    run.traces += len(tv3["accepted"])
+    run.states += tv3["states"]
+    run.transitions += tv3["transitions"]
+    for sid in tv3["ids"]:
+        if sid not in tv3["accepted"]:
+            reached, total = tv3["progress"][sid]
+            evs = g2.get(sid, [])
+            run.violation("C04 guard-not-held history=%s" % history_key(hists[sid - 1]),
+                          {"behaviour": hists[sid - 1], "trace_rejected_at": reached,
+                           "first_unmatched_event": evs[reached] if reached < len(evs) else None})
+    return run.finish()
+
+
 CHECKS = {
     "C01": placement_check,
+    "C04": lock_check,
     "C06": times_check,
     "C11": alloc_check,
     "C02": lifecycle_check,
